@@ -68,6 +68,9 @@ def gen_dex_case(rng):
         assert all(a != b for rx, rv_ in zip(X, V) for a, b in zip(rx, rv_))
         case["near"] = kind
         case["X"] = enc(np.array(X)); case["V"] = enc(np.array(V))
+    if case["api"] == "do" and rng.random() < 0.15:
+        # the operator was built with another rate and re-tuned afterwards (self-adaptive schemes set operator.CR between generations)
+        case["CR_built"] = float(rng.choice([0.0, 1.0, 0.5, 0.9, 0.2])).hex()
     r = rng.random()
     if r < 0.4:
         # boundary draws: 0.0, exactly CR, just below/above CR, 1 - 2^-53
@@ -91,7 +94,11 @@ def run_dex(case):
         if case["api"] == "do":
             pop = Population.new("X", X.astype(case["xdtype"]) if "xdtype" in case else X); mut = Population.new("X", V)
             matings = np.column_stack([pop, mut]).view(Population)
-            off = DEX(variant=case["variant"], CR=CR).do(None, matings)
+            if "CR_built" in case:
+                op = DEX(variant=case["variant"], CR=float.fromhex(case["CR_built"])); op.CR = CR
+            else:
+                op = DEX(variant=case["variant"], CR=CR)
+            off = op.do(None, matings)
             U = off.get("X")
             Xa, Va = pop.get("X").astype(float), mut.get("X")
         else:
@@ -111,7 +118,7 @@ class C12(Check):
     ID = "C12"
     IMPORTS = "From PV Require Import Model.Cross."
     RULE = ("DEX(variant, CR).do on merged (target, mutant) populations and cross_binomial/cross_exp directly; targets dyadic, mutants = target+100+k so "
-            "the mask is observable; targets also integer-coded (int64) or single precision with double-precision mutants; 25% of the rest with mutants within a few ulps/2^-30 of their targets (tiny units, large offset with small spread, converged population); CR in {0, 2^-53, .1, .5, .7, .9, 1, random}; draws recorded, or scripted with boundary values (0, CR, CR+-1ulp, 1-2^-53) "
+            "the mask is observable; targets also integer-coded (int64) or single precision with double-precision mutants; 15% of the DEX.do calls on an operator built with another rate whose CR attribute was set afterwards; 25% of the rest with mutants within a few ulps/2^-30 of their targets (tiny units, large offset with small spread, converged population); CR in {0, 2^-53, .1, .5, .7, .9, 1, random}; draws recorded, or scripted with boundary values (0, CR, CR+-1ulp, 1-2^-53) "
             "and scripted randint; non-trivial = n_var >= 2; distinct by hash")
     ASSUMPTIONS = ["order-only theorems (any number type); CR=0/1 corollaries stated over Q with draws in [0,1)",
                    "'target and mutant are not modified' is a property of the functional model and an observation (array snapshots) on the implementation"]
@@ -144,6 +151,7 @@ class C12(Check):
         if len(case["X"][0]) == 1: out.append("n_var=1")
         if "xdtype" in case: out.append("targets-" + case["xdtype"])
         if "near" in case: out.append("near-" + case["near"])
+        if "CR_built" in case: out.append("CR-retuned-after-construction")
         return out
 
     def explain(self, case, obs):
